@@ -74,8 +74,121 @@ fn delta_text(d: &ReplicationDelta) -> String {
 fn content(d: &ReplicationDelta) -> String {
     format!("{}|{}|{}", d.key, obs(&d.value), d.source_replica.0)
 }
-fn kv_term(s: &KV) -> String {
-    clist(s.iter(), |(k, v)| format!("({}, {})", chex(k.as_bytes()), rv_term(v, false)))
+/// How deltas and values are printed: in full (`Plain`, readable, used for reports and the
+/// canonical text) or through per-case `let` bindings (`Intern`: every distinct literal, value
+/// and delta is elaborated by Coq once per case; parsing literals dominates the Coq side).
+trait Pr {
+    fn d(&mut self, d: &ReplicationDelta) -> String;
+    fn v(&mut self, v: &ReplicatedValue) -> String;
+}
+struct Plain;
+impl Pr for Plain {
+    fn d(&mut self, d: &ReplicationDelta) -> String {
+        delta_term(d)
+    }
+    fn v(&mut self, v: &ReplicatedValue) -> String {
+        rv_term(v, false)
+    }
+}
+#[derive(Default)]
+struct Intern {
+    lit: HashMap<String, String>,
+    lit_defs: Vec<(String, String)>,
+    names: HashMap<String, String>,
+    defs: Vec<(String, String)>,
+}
+impl Intern {
+    /// replace every string literal and every number of `text` by a let-bound name
+    /// (identifiers, also those with digits such as K11 or v3, are copied)
+    fn lits(&mut self, text: &str) -> String {
+        let b = text.as_bytes();
+        let mut o = String::with_capacity(text.len());
+        let mut i = 0;
+        while i < b.len() {
+            let c = b[i];
+            if c.is_ascii_alphabetic() || c == b'_' {
+                let st = i;
+                while i < b.len() && (b[i].is_ascii_alphanumeric() || b[i] == b'_' || b[i] == b'\'') {
+                    i += 1;
+                }
+                o.push_str(&text[st..i]);
+            } else if c == b'"' {
+                let st = i;
+                i += 1;
+                while i < b.len() && b[i] != b'"' {
+                    i += 1;
+                }
+                i += 1;
+                let name = self.lit_name(&text[st..i], "s");
+                o.push_str(&name);
+            } else if c.is_ascii_digit() {
+                let st = i;
+                while i < b.len() && b[i].is_ascii_digit() {
+                    i += 1;
+                }
+                let name = self.lit_name(&text[st..i], "n");
+                o.push_str(&name);
+            } else {
+                o.push(c as char);
+                i += 1;
+            }
+        }
+        o
+    }
+    fn lit_name(&mut self, lit: &str, pre: &str) -> String {
+        if let Some(n) = self.lit.get(lit) {
+            return n.clone();
+        }
+        let n = format!("{}{}", pre, self.lit_defs.len());
+        self.lit.insert(lit.to_string(), n.clone());
+        self.lit_defs.push((n.clone(), lit.to_string()));
+        n
+    }
+    fn def(&mut self, plain: String, pre: &str, body: String) -> String {
+        let n = format!("{}{}", pre, self.defs.len());
+        self.names.insert(plain, n.clone());
+        self.defs.push((n.clone(), body));
+        n
+    }
+    fn wrap(&self, body: &str) -> String {
+        let mut o = String::from("(");
+        for (n, l) in &self.lit_defs {
+            o.push_str(&format!("let {} := {} in ", n, l));
+        }
+        for (n, b) in &self.defs {
+            o.push_str(&format!("let {} := {} in ", n, b));
+        }
+        o.push_str(body);
+        o.push(')');
+        o
+    }
+}
+impl Pr for Intern {
+    fn v(&mut self, v: &ReplicatedValue) -> String {
+        let plain = rv_term(v, false);
+        if let Some(n) = self.names.get(&plain) {
+            return n.clone();
+        }
+        let body = self.lits(&plain);
+        self.def(plain, "v", body)
+    }
+    fn d(&mut self, d: &ReplicationDelta) -> String {
+        let plain = delta_term(d);
+        if let Some(n) = self.names.get(&plain) {
+            return n.clone();
+        }
+        let vn = self.v(&d.value);
+        let body = format!("D {} {} {}", self.lits(&chex(d.key.as_bytes())), vn, self.lits(&d.source_replica.0.to_string()));
+        self.def(plain, "d", body)
+    }
+}
+fn kv_term(s: &KV, p: &mut dyn Pr) -> String {
+    let v: Vec<String> = s.iter().map(|(k, v)| format!("({}, {})", chex(k.as_bytes()), p.v(v))).collect();
+    format!("[{}]", v.join("; "))
+}
+fn deltas_term<'a>(ds: impl IntoIterator<Item = &'a ReplicationDelta>, p: &mut dyn Pr) -> String {
+    let v: Vec<String> = ds.into_iter().map(|d| p.d(d)).collect();
+    format!("[{}]", v.join("; "))
 }
 fn obs_kv(s: &KV) -> BTreeMap<String, String> {
     s.iter().map(|(k, v)| (k.clone(), obs(v))).collect()
@@ -445,19 +558,19 @@ impl Layout {
         }
         m
     }
-    fn objects_term(&self) -> String {
+    fn objects_term(&self, p: &mut dyn Pr) -> String {
         let mut v: Vec<String> = Vec::new();
         if self.has_manifest || self.orphans {
             for s in &self.segs {
                 match s.damage {
-                    Damage::Intact => v.push(format!("(OS {} {})", s.id, clist(s.deltas.iter(), delta_term))),
+                    Damage::Intact => v.push(format!("(OS {} {})", s.id, deltas_term(s.deltas.iter(), p))),
                     Damage::Torn(_) => v.push(format!("(OT (NSeg {}))", s.id)),
                     Damage::Missing => {}
                 }
             }
             if let Some(c) = &self.ck {
                 match c.damage {
-                    Damage::Intact => v.push(format!("(OC {} {})", c.ts, kv_term(&c.state))),
+                    Damage::Intact => v.push(format!("(OC {} {})", c.ts, kv_term(&c.state, p))),
                     Damage::Torn(_) => v.push(format!("(OT (NCk {}))", c.ts)),
                     Damage::Missing => {}
                 }
@@ -600,8 +713,12 @@ async fn run_case(seed: u64, i: u64, verbose: bool, out: &mut Out) {
     // ---- case text (layout part)
     let segs_t = clist(lay.segs.iter(), |s| format!("SG {} {} {} {} {} {}", s.id, s.id, s.info.record_count, s.info.size_bytes, s.info.min_timestamp, s.info.max_timestamp));
     let ck_t = copt(&lay.ck, |c| format!("(CK {} {} {} {})", c.ts, c.ts, c.state.len(), c.last));
-    let objs_t = lay.objects_term();
-    let wal_t = clist(wal_entries.iter(), |(ts, d)| format!("({}, {})", ts, delta_term(d)));
+    let wal_term = |p: &mut dyn Pr| -> String {
+        let v: Vec<String> = wal_entries.iter().map(|(ts, d)| format!("({}, {})", ts, p.d(d))).collect();
+        format!("[{}]", v.join("; "))
+    };
+    let objs_t = lay.objects_term(&mut Plain);
+    let wal_t = wal_term(&mut Plain);
     let layout_t = format!("{} 1 {} {} {} {} {} {}", lay.version, segs_t, ck_t, manifest.next_segment_id, cbool(lay.has_manifest), objs_t, wal_t);
 
     let listed = lay.has_manifest;
@@ -949,19 +1066,43 @@ async fn run_case(seed: u64, i: u64, verbose: bool, out: &mut Out) {
     }
 
     // ---- the Coq case
-    let k_rec_t = match &rec {
-        Ok(r) => format!("(Some ({}, {}))", copt(&r.ck_kv(), kv_term), clist(r.deltas.iter(), delta_term)),
-        Err(_) => "None".to_string(),
+    let okv = |s: &Option<KV>, p: &mut dyn Pr| -> String {
+        match s {
+            Some(s) => format!("(Some {})", kv_term(s, p)),
+            None => "None".to_string(),
+        }
     };
-    let k_recwal_t = match &recwal {
-        Ok(r) => format!("(Some {})", clist(r.deltas.iter(), delta_term)),
-        Err(_) => "None".to_string(),
+    let outputs = |p: &mut dyn Pr| -> [String; 4] {
+        let k_rec_t = match &rec {
+            Ok(r) => format!("(Some ({}, {}))", okv(&r.ck_kv(), p), deltas_term(r.deltas.iter(), p)),
+            Err(_) => "None".to_string(),
+        };
+        let k_recwal_t = match &recwal {
+            Ok(r) => format!("(Some {})", deltas_term(r.deltas.iter(), p)),
+            Err(_) => "None".to_string(),
+        };
+        [k_rec_t, k_recwal_t, okv(&k_state, p), okv(&k_prod, p)]
     };
-    let k_state_t = copt(&k_state, kv_term);
-    let k_prod_t = copt(&k_prod, kv_term);
-    let term = format!("(K11 {} {} {} {} {})", layout_t, k_rec_t, k_recwal_t, k_state_t, k_prod_t);
+    let [k_rec_t, k_recwal_t, k_state_t, k_prod_t] = outputs(&mut Plain);
+    // the term written to the case file: the same case with every distinct literal, value and
+    // delta bound once by a `let`
+    let term = {
+        let mut it = Intern::default();
+        let objs_i = lay.objects_term(&mut it);
+        let wal_i = wal_term(&mut it);
+        let [a, b, c, d] = outputs(&mut it);
+        let skeleton = format!("K11 {} 1 {} {} {} {} {} {} {} {} {} {}", lay.version, segs_t, ck_t, manifest.next_segment_id, cbool(lay.has_manifest), objs_i, wal_i, a, b, c, d);
+        let body = it.lits(&skeleton);
+        it.wrap(&body)
+    };
+    let plain_term = format!("(K11 {} {} {} {} {})", layout_t, k_rec_t, k_recwal_t, k_state_t, k_prod_t);
+    bump(out, "case-term-bytes-plain", plain_term.len() as u64);
+    bump(out, "case-term-bytes-written", term.len() as u64);
     let parts = (listed && lay.ck.as_ref().map_or(false, |c| !c.state.is_empty())) as usize + (listed && !lay.segs.is_empty()) as usize + (!wal_entries.is_empty()) as usize;
     let nontrivial = rec.is_ok() && parts >= 2;
+    if verbose {
+        println!("Coq case as written to the case file (let-compressed):\n{}", term);
+    }
     out.case(i, term, nontrivial, &layout_t);
     out.sample(json!({"case": i, "tags": lay.tags(), "updates": lay.updates.len(), "segments": lay.segs.iter().map(|s| s.id).collect::<Vec<_>>(), "checkpoint": lay.ck.is_some(), "wal_entries": wal_entries.len(), "high_water": high_water}));
     bump(out, "updates-total", lay.updates.len() as u64);
